@@ -4,7 +4,7 @@ From SL Require Import Tac.
 From SL Require Import PyInt LoopSem ScreenSem ScreenMon proofs.InputLink.
 Import ListNotations.
 
-Lemma chk_all_C18 strict quit nosep w e : chk_all strict quit nosep w e = true -> chk_C18 w e = true.
+Lemma chk_all_C18 strict fresh quit nosep w e : chk_all strict fresh quit nosep w e = true -> chk_C18 w e = true.
 Proof.
   unfold chk_all, mchk_all. intros H. rewrite chk18_abs.
   apply andb_true_iff in H. destruct H as [H _]. apply andb_true_iff in H. destruct H as [H _].
@@ -16,22 +16,58 @@ Theorem input_requests specs specl typed quit run_empty fuel acts :
   sok chk_C18 typed (rev (trace (snd (app_run_all specs specl typed quit run_empty fuel acts)))) = true.
 Proof.
   intros HS WF. eapply sok_weaken; [apply chk_all_C18|].
-  apply (all_accepted false (fun _ => 0) specs specl typed quit run_empty fuel acts HS WF).
+  apply (all_accepted false false (fun _ => 0) specs specl typed quit run_empty fuel acts HS WF).
 Qed.
 
 (* ---- every requester is answered at most once *)
-Lemma chk_all_once strict quit nosep w e : chk_all strict quit nosep w e = true -> chk_once w e = true.
+Lemma chk_all_once strict quit nosep w e : chk_all strict true quit nosep w e = true -> chk_once w e = true.
 Proof.
   unfold chk_all, mchk_all. intros H. rewrite chk_once_abs.
-  apply andb_true_iff in H. destruct H as [_ H]. exact H.
+  apply andb_true_iff in H. destruct H as [_ H]. cbn [negb] in H. rewrite orb_false_r in H. exact H.
 Qed.
 
+(* when the application has no InputHandler objects of its own - every request has a fresh handler, which is all the
+   framework itself ever does through InputManager - no handler gets a second ready signal *)
 Theorem answered_once specs specl typed quit run_empty fuel acts :
   (forall n, specs n = nth n specl default_spec) -> wf_session specl quit acts = true ->
+  no_handler_objects specl acts = true ->
   sok chk_once typed (rev (trace (snd (app_run_all specs specl typed quit run_empty fuel acts)))) = true.
 Proof.
-  intros HS WF. eapply sok_weaken; [apply chk_all_once|].
-  apply (all_accepted false (fun _ => 0) specs specl typed quit run_empty fuel acts HS WF).
+  intros HS WF NO. eapply sok_weaken; [apply chk_all_once|].
+  apply (all_accepted false true (fun _ => 0) specs specl typed quit run_empty fuel acts HS).
+  apply wf_session_fresh; assumption.
+Qed.
+
+(* for reused handler objects "once" is per REQUEST: an accepted ready signal consumes exactly one entry of the
+   hand-off list - the one it matches *)
+Lemma ready_consumes_entry w n ok t : chk_C18 w (EUser T_READY [n; ok] t) = true ->
+  exists x, fst (fst x) = n /\ snd (fst x) = (ok =? 1)%nat /\ streq (snd x) t = true /\
+            Permutation.Permutation (sw_handoff w) (x :: sw_handoff (sworld_step w (EUser T_READY [n; ok] t))).
+Proof.
+  unfold chk_C18. cbn [Nat.eqb T_PROMPT T_REFUSED T_READY nth0 nth]. intros H.
+  apply existsb_exists in H. destruct H as (x & I & H). exists x.
+  assert (M : rmatch n (ok =? 1)%nat t x = true) by exact H.
+  apply rmatch_spec in M.
+  apply andb_true_iff in H. destruct H as [H H3]. apply andb_true_iff in H. destruct H as [H1 H2].
+  apply Nat.eqb_eq in H1. apply eqb_prop in H2. repeat split; auto.
+  assert (E : sw_handoff (sworld_step w (EUser T_READY [n; ok] t)) = remove_first (rmatch n (ok =? 1)%nat t) (sw_handoff w)).
+  { change (sw_handoff (sworld_step w (EUser T_READY [n; ok] t))) with (m_hand (absw (sworld_step w (EUser T_READY [n; ok] t)))).
+    rewrite abs_step. cbn. match goal with |- context [if ?c then _ else _] => destruct c end;
+      [destruct (alookup n (sw_req w)) as [[scr ar]|]|]; reflexivity. }
+  rewrite E. apply remove_first_perm; [exact I| |].
+  - apply rmatch_spec. exact M.
+  - intros y Hy. apply rmatch_spec in Hy. congruence.
+Qed.
+
+(* what the application sees after wait_on_input() *)
+Lemma C18_waited_meaning w h n ok hv t : chk_C18 w (EUser T_WAITED [h; n; ok; hv] t) = true ->
+  exists b v, alookup n (sw_last w) = Some (Some (b, v)) /\ b = (ok =? 1)%nat /\
+              (b = true -> hv = 1 /\ streq v t = true).
+Proof.
+  unfold chk_C18. cbn [Nat.eqb T_PROMPT T_REFUSED T_READY T_GOT T_WAITED nth0 nth]. intros H.
+  destruct (alookup n (sw_last w)) as [[[b v]|]|]; try discriminate H. exists b, v. split; [reflexivity|].
+  apply andb_true_iff in H. destruct H as [H1 H2]. apply eqb_prop in H1. split; [exact H1|].
+  intros ->. cbn [negb orb] in H2. apply andb_true_iff in H2. destruct H2 as [A B]. apply Nat.eqb_eq in A. auto.
 Qed.
 
 (* the handlers that got a ready signal are never forgotten ... *)
@@ -138,3 +174,19 @@ Definition ex18_run (skip : bool) :=
 Definition ex18_trace (skip : bool) : list event := rev (trace (snd (ex18_run skip))).
 Definition user_events (tag : nat) (t : list event) : list (list nat * str) :=
   flat_map (fun e => match e with EUser tg a x => if (tg =? tag)%nat then [(a, x)] else [] | _ => [] end) t.
+
+(* ---- the application's own InputHandler objects, type-ahead *)
+Definition ex18h_run (acts : list saction) (typed : list (option str)) :=
+  app_run_all (fun n => nth n [ex18_spec true] default_spec) [ex18_spec true] typed None false 2000 acts.
+Definition ex18h_trace acts typed : list event := rev (trace (snd (ex18h_run acts typed))).
+(* one object asks, waits, asks again, waits again: two requests, two answers *)
+Definition ex18h_acts1 : list saction :=
+  [SACmds [SSetTypeAhead true; SHandlerAsk 0 true; SHandlerWait 0; SHandlerAsk 0 true; SHandlerWait 0]].
+Definition ex18h_typed1 : list (option str) := [Some [97%N]; Some [98%N]].
+(* the user types ahead; three objects ask one after the other (check bypassed) before anything is processed; the most
+   recent one is answered, the two earlier ones fail; then object 0 asks again and is superseded by object 1 *)
+Definition ex18h_acts2 : list saction :=
+  [SACmds [SSetTypeAhead true; SHandlerAsk 0 true; SHandlerAsk 1 true; SHandlerAsk 2 true;
+           SHandlerWait 2; SHandlerWait 0; SHandlerWait 1;
+           SHandlerAsk 0 true; SHandlerAsk 1 true; SHandlerWait 0; SHandlerWait 1]].
+Definition ex18h_typed2 : list (option str) := [Some [97%N]; Some [98%N]; Some [99%N]].
